@@ -54,4 +54,23 @@ split; [split | split; [split | split; [split | split]]].
 - by rewrite /exu /exTa trmx1 mulmx1 mul1mx.
 Qed.
 
+(* The guard "no leads in measurement equations" of Theorem measurement_block is needed: the code keeps only
+   system.G[:, num_forwards:], so a measurement equation  o = x{+1} + 1  (F = -1, G = [1 0], H~ = 1) is NOT
+   satisfied by the computed (Z, H, D) = (0, ., 1) as soon as the lead is non-zero. *)
+Theorem measurement_leads_refuted :
+  exists (Fm : 'M[F]_1) (Gm : 'M[F]_(1, 1 + 1)) (Hc : 'cV[F]_1) (Jm : 'M[F]_(1, 0)) (Ua : 'M[F]_1)
+         (f : 'cV[F]_1) (xi : 'cV[F]_1) (w : 'cV[F]_0),
+  let ms := @solve_measurement O 1 1 1 0 Fm Gm Hc Jm Ua in
+  Fm \in unitmx /\
+  Fm *m (ms_Z ms *m xi + ms_H ms *m w + ms_D ms) + Gm *m col_mx f xi + Hc + Jm *m w != 0.
+Proof.
+exists (- 1%:M), (row_mx 1%:M 0), 1%:M, 0, 1%:M, 1%:M, 0, 0 => /=; split.
+  by rewrite unitmxN ?unitmx1.
+rewrite /left_div /= opprK invmx1 !mul1mx row_mxKr.
+have z1 (A : 'M[F]_(1, 1)) : A *m (0 : 'cV[F]_1) = 0 by exact: mulmx0.
+have z2 (A : 'M[F]_(1, 0)) : A *m (0 : 'cV[F]_0) = 0 by exact: mulmx0.
+rewrite !z1 !z2 !add0r mul_row_col mul0mx !addr0 mulNmx !mul1mx addNr add0r.
+by apply/eqP => /matrixP /(_ 0 0); rewrite !mxE /= => /eqP; rewrite oner_eq0.
+Qed.
+
 End Example.
